@@ -87,6 +87,12 @@ def cases(tier, inst):
                 yield ("cond2", c2, c1, op, "entity_y" if c2 in yonly else "setof", "entity_x")
     # --- sub-query as operand
     subs = xonly + [None, ("cmp", "eq", A(X, "p"), L(5))]          # None: no condition; p == 5: no solution
+    # ... and sub-queries whose own condition is a disjunction / a negated conjunction / a conjunction: as the operand that
+    # is evaluated second they are evaluated once per binding of the other operand
+    subs += [("or", ("cmp", "eq", A(X, "p"), L(2)), ("cmp", "ge", A(X, "q"), L(2))),
+             ("or", ("cmp", "le", A(X, "q"), L(1)), ("cmp", "ne", A(X, "p"), L(2))),
+             ("not", ("and", ("cmp", "ne", A(X, "p"), L(2)), ("cmp", "lt", A(X, "q"), L(2)))),
+             ("and", ("cmp", "ge", A(X, "p"), L(2)), ("or", ("cmp", "eq", A(X, "q"), L(1)), ("cmp", "eq", A(X, "q"), L(3))))]
     for c in subs:
         for op in ("eq", "ne"):
             yield ("operand", c, op, "right")      # y.ref <op> sub
@@ -94,6 +100,9 @@ def cases(tier, inst):
         for op in ("eq", "lt", "ge", "ne"):
             yield ("attr_operand", c, op, "left")  # sub.p <op> y.p
             yield ("attr_operand", c, op, "right")
+            # ... selecting the sub-query's variable only: the other operand's variable is needed by nobody above
+            yield ("attr_operand_selx", c, op, "left")
+            yield ("attr_operand_selx", c, op, "right")
         yield ("pform_arg", c)
     # --- sub-queries that have NO condition of their own (an(entity(x)), an(set_of([x, y]))): as a condition they are
     #     simply true for every binding of what they select
@@ -216,6 +225,15 @@ def queries_of(case):
         return n, f, RICH
     vy = (VXY[1],)
     vxy_decl = VXY
+    if fam == "attr_operand_selx":
+        _, c, op, side = case
+        s = ("sub", sub_q(c))
+        a, b, fa, fb = A(s, "p"), A(Y, "p"), A(X, "p"), A(Y, "p")
+        if side == "right":
+            a, b, fa, fb = b, a, fb, fa
+        n = ("Q", "an", "entity", X, (("cmp", op, a, b),), vxy_decl)
+        f = ("Q", "an", "entity", X, (("cmp", op, fa, fb),) + ((c,) if c else ()), vxy_decl)
+        return n, f, RICH
     if fam in ("operand", "attr_operand"):
         _, c, op, side = case
         s = ("sub", sub_q(c))
